@@ -74,7 +74,7 @@ pub struct ResSpec {
 pub fn res_alphabet(full: bool) -> Vec<ResSpec> {
     if full {
         let mut v = Vec::new();
-        for md in 0..2 {
+        for md in 0..3 {
             for env in [None, Some(1u8), Some(2), Some(3)] {
                 for execd in 0..2 {
                     for sbom in 0..2 {
@@ -92,6 +92,7 @@ pub fn res_alphabet(full: bool) -> Vec<ResSpec> {
             ResSpec { md: 1, env: Some(2), execd: 1, sbom: 0 },
             ResSpec { md: 0, env: Some(1), execd: 0, sbom: 0 },
             ResSpec { md: 1, env: None, execd: 1, sbom: 1 },
+            ResSpec { md: 2, env: Some(2), execd: 0, sbom: 0 },
         ]
     }
 }
@@ -101,12 +102,17 @@ pub trait Meta2: MetaProbe + Clone {
 }
 impl Meta2 for V1 {
     fn variant(k: u8) -> Self {
-        serde_json::from_value(json!({"version": if k == 0 { "1" } else { "2" }})).unwrap()
+        serde_json::from_value(json!({"version": if k == 1 { "2" } else { "1" }})).unwrap()
     }
 }
 impl Meta2 for GenericMetadata {
     fn variant(k: u8) -> Self {
-        let v: toml::Value = if k == 0 { toml::toml! { version = "1" }.into() } else { toml::toml! { legacy = 1 }.into() };
+        let v: toml::Value = match k {
+            0 => toml::toml! { version = "1" }.into(),
+            1 => toml::toml! { legacy = 1 }.into(),
+            // parses as V1 but carries a key V1 does not declare
+            _ => toml::toml! { version = "1" checksum = "abc" }.into(),
+        };
         v.as_table().cloned()
     }
 }
@@ -166,7 +172,19 @@ fn data_matches_disk<M: MetaProbe>(data: &LayerData<M>, layers_dir: &Path, name:
     for q in [Sc::All, Sc::Build, Sc::Launch, Sc::Process("web".into()), Sc::Process("worker".into()), Sc::Process("zz".into())] {
         for st in [PlainEnv::new(), [(b"A".to_vec(), b"x".to_vec())].into_iter().collect::<PlainEnv>(), [(b"PATH".to_vec(), b"/bin".to_vec()), (b"W".to_vec(), b"".to_vec())].into_iter().collect()] {
             let got = plain_of(&data.env.apply(q.real(), &real_plain(&st)));
-            let want = ref_apply(&abs, &q, &st);
+            let mut want = ref_apply(&abs, &q, &st);
+            // implicit layer paths (C10 semantics): <layer>/<sub> prepended when it is a directory
+            for (var, sub) in implicit(&q) {
+                if layers_dir.join(name).join(sub).is_dir() {
+                    let dir = layers_dir.join(name).join(sub).into_os_string().into_encoded_bytes();
+                    let key = var.as_bytes().to_vec();
+                    let new = match want.get(&key) {
+                        Some(old) if !old.is_empty() => [dir, b":".to_vec(), old.clone()].concat(),
+                        _ => dir,
+                    };
+                    want.insert(key, new);
+                }
+            }
             if got != want {
                 return Err(format!("env applied for {q:?} gives {got:?}, the directory's env files give {want:?}"));
             }
@@ -179,6 +197,9 @@ impl<M: Meta2> Script<M> {
     fn result(&self, k: u8, layer_path: &Path, marker: &str) -> LayerResult<M> {
         let spec = self.results[k as usize];
         std::fs::write(layer_path.join(marker), marker.as_bytes()).unwrap();
+        // a bin/ directory: the layer's env then has implicit PATH entries for build and launch
+        std::fs::create_dir_all(layer_path.join("bin")).unwrap();
+        std::fs::write(layer_path.join("bin").join(marker), b"tool").unwrap();
         let mut b = LayerResultBuilder::new(M::variant(spec.md));
         if let Some(e) = spec.env {
             b = b.env(real_env(&env_value(e)));
@@ -553,6 +574,8 @@ pub fn step(snap: &Snapshot, op: &Op, results: &[ResSpec], verbose: bool) -> St 
                         }
                         let marker = if *updated { "updated" } else { "created" };
                         l.files.insert(marker, Node::file(marker.as_bytes()));
+                        l.files.insert("bin", Node::dir());
+                        l.files.insert(&format!("bin/{marker}"), Node::file(b"tool"));
                     }
                     Ret::DefaultImpl => {
                         // default update: same metadata, same env, no exec.d, no SBOMs
